@@ -52,14 +52,23 @@ def cases(draw, exclude: frozenset = frozenset()):
 		tails.append(f'\nclass ZB:\n\tzf: {t}\n\n\tdef __init__(self) -> None:\n\t\tself.zf = {v}\n\n\tdef zget(self) -> {t}:\n\t\treturn {v}\n\nclass ZS(ZB):\n\tpass\n\n'
 			f'def zmake() -> {t}:\n\treturn {v}\n\ndef zuse(s_z: ZS) -> None:\n\ta_z = s_z.zget()\n\tb_z = zmake()\n\tc_z = s_z.zf\n\td_z = [a_z, b_z]\n')
 	m0, m1 = m0 + tails[0], m1 + tails[1]
+	# an enum member with a computed value read through `.value` (folded to a literal by the evaluator of the transpiler, which lives as long as the session)
+	if 'from enum import Enum' not in m0:
+		m0 = 'from enum import Enum\n' + m0
+	k0 = rnd.randint(1, 5)
+	enum_tail = '\nclass ZE(Enum):\n\tZA = 1 << %d\n\tZC = %d\n\ndef zval() -> int:\n\treturn ZE.ZA.value + ZE.ZC.value\n'
+	# variant 3 is variant 0 edited in place (only literals differ, every node keeps its path): the commonest re-submission of an interactive session
+	m0_edited = m0.replace('p_z + 1', 'p_z + 2') + enum_tail % (k0 + 1, -k0)
+	m0 += enum_tail % (k0, k0)
 	mains = [m0, m1]
 	third = two['c'] if sibling else pygen.gen_program(rnd, set(exclude), size=1)['source']  # module C: independent of A and B unless it is a sibling importer
 	# a __main__ variant that imports module A of *this* pool: reuse B's text of a second generation over the same A is not possible, so use B itself as a main variant
 	mains.append(two['b'])
+	mains.append(m0_edited)
 	ops = []
 	for _ in range(rnd.randint(8, 25)):
 		k = rnd.choice(OPS)
-		ops.append([k, rnd.choice(['hma', 'hmb', 'hmc']), rnd.randint(0, 2), rnd.randint(0, 10 ** 6)])
+		ops.append([k, rnd.choice(['hma', 'hmb', 'hmc']), rnd.choice([0, 1, 2, 3, 3, 0]), rnd.randint(0, 10 ** 6)])
 	return {'a': two['a'], 'b': two['b'], 'c': third, 'c_imports_a': sibling, 'names': [na, nb, nc], 'mains': mains, 'ops': ops}
 
 
